@@ -12,7 +12,7 @@ func TestVerifSketch(t *testing.T) {
 	tr := vopen(t, "sketch")
 	defer tr.close()
 	r := &vrng{s: vseed()*7919 + 17}
-	ncases := vscale(120, 4000)
+	ncases := vscale(120, 800)
 	for c := 0; c < ncases; c++ {
 		s := NewCountMinSketch()
 		tr.init(1)
@@ -106,7 +106,7 @@ func TestVerifSketch(t *testing.T) {
 			}
 			tr.op("dump", ss("4"), out)
 		}
-		nops := 200 + r.intn(vscale(1500, 5000))
+		nops := 200 + r.intn(vscale(1500, 3000))
 		if size > 4096 {
 			nops = 100 + r.intn(200)
 		}
